@@ -7,10 +7,15 @@
   the depth limit of the inline mode, nil pointers of recursive types). Proved: soundness, field names and — for the
   `$defs` style — reference resolution on the fragment without these constructs, for every type and every fully
   populated value (`C18_sound_partial`, `C18_field_names`, `C18_refs_resolve`), and the argument-binding round trip.
+  `jsonschema` tags (`Mcp.Model.SchemaTags`: the tag parser that exists, both formats, with its oddities): whatever the
+  tags say, no field disappears (`C18_field_names_any_jsonschema_tag`); the directive splitter never yields an empty
+  directive (`C18_directives_nonempty`); "yields a JSON Schema document" holds for tags without NaN / Inf spellings
+  (`C18_tags_serialisable_partial`) and is FALSE with them (`C18_tag_nonfinite_witness`).
   Termination of the three generators is Lean's own termination check of their transcriptions in `Mcp.Model.Schema`
   (structural recursion on the type, fuel only for unfolding a named type; no `partial`).
 -/
 import Mcp.Model.Schema
+import Mcp.Model.SchemaTags
 namespace Mcp.Props.C18
 open Mcp.Str Mcp.Schema
 
@@ -813,6 +818,199 @@ theorem C18_sound_refuted_defs : ¬ SoundFor genDefsDoc := by
   rw [show (GoType.struct _) = Ex.tBytes from rfl, C18_bytes_counterexample.2.2.2] at this
   cases this
 
+/-! ## `jsonschema` tags: whatever a tag says, no field disappears -/
+
+private theorem retag_fragFields (f : FieldMeta → Text) (fs : Fields) : fragFields (retag f fs) = fragFields fs := by
+  induction fs with
+  | nil => rfl
+  | cons x fs ih =>
+    obtain ⟨m, t⟩ := x
+    simp only [retag, fragFields, ih]
+    rfl
+
+private theorem retag_jsonFieldNames (f : FieldMeta → Text) (fs : Fields) : jsonFieldNames (retag f fs) = jsonFieldNames fs := by
+  induction fs with
+  | nil => rfl
+  | cons x fs ih =>
+    obtain ⟨m, t⟩ := x
+    simp only [retag, jsonFieldNames, ih]
+    rfl
+
+/-- **Tags never remove a field**: replace the `jsonschema` tags of a fragment struct by ANY texts (patterns no regular
+    expression engine accepts, commas, semicolons, unknown keywords, …): the schema's property names are still exactly
+    encoding/json's member names of the type. (The tag parser `tagKeywords` is total — it has no failure path — and the
+    struct generators consult the tag for `required` only.) -/
+theorem C18_field_names_any_jsonschema_tag (fs : Fields) (f : FieldMeta → Text) (hf : frag (.struct fs) = true) :
+    propertyNames (genInline (.struct (retag f fs))) = jsonFieldNames fs := by
+  have hf' : frag (.struct (retag f fs)) = true := by
+    simp only [frag, retag_fragFields, retag_jsonFieldNames] at hf ⊢
+    exact hf
+  rw [C18_field_names _ hf', retag_jsonFieldNames]
+
+/-- every directive `parseDirectives` hands to the keyword switch is non-empty, in both tag formats -/
+private theorem legacyStep_inv (st : DirState) (part : Text)
+    (h1 : ∀ d ∈ st.out, d ≠ []) (h2 : st.inDesc = true → st.cur ≠ []) :
+    (∀ d ∈ (legacyStep st part).out, d ≠ []) ∧ ((legacyStep st part).inDesc = true → (legacyStep st part).cur ≠ []) := by
+  have hflush : ∀ d ∈ flush st, d ≠ [] := by
+    intro d hd
+    unfold flush at hd
+    by_cases hc : st.cur = []
+    · simp [hc] at hd; exact h1 d hd
+    · simp [hc] at hd
+      rcases hd with hd | hd
+      · rw [hd]; exact hc
+      · exact h1 d hd
+  unfold legacyStep
+  by_cases hp : hasPrefix part t!"description=" = true
+  · simp only [hp, ite_true]
+    refine ⟨hflush, fun _ => ?_⟩
+    intro e; rw [e] at hp; simp [hasPrefix] at hp
+  · simp only [hp, Bool.false_eq_true, ite_false]
+    by_cases hd : st.inDesc = true
+    · simp only [hd, ite_true]
+      by_cases he : endsDescription part = true
+      · simp only [he, ite_true]
+        refine ⟨?_, fun h => by cases h⟩
+        intro d hd'
+        rcases List.mem_cons.mp hd' with e | e
+        · rw [e]; exact h2 hd
+        · exact h1 d e
+      · simp only [he, Bool.false_eq_true, ite_false]
+        refine ⟨h1, fun _ => ?_⟩
+        intro e
+        have := congrArg List.length e
+        simp at this
+    · simp only [hd, Bool.false_eq_true, ite_false]
+      exact ⟨hflush, fun h => by cases h⟩
+
+private theorem legacyFold_inv (parts : List Text) : ∀ (st : DirState),
+    (∀ d ∈ st.out, d ≠ []) → (st.inDesc = true → st.cur ≠ []) →
+    ∀ d ∈ flush (parts.foldl legacyStep st), d ≠ [] := by
+  induction parts with
+  | nil =>
+    intro st h1 _ d hd
+    simp only [List.foldl_nil] at hd
+    unfold flush at hd
+    by_cases hc : st.cur = []
+    · simp [hc] at hd; exact h1 d hd
+    · simp [hc] at hd
+      rcases hd with hd | hd
+      · rw [hd]; exact hc
+      · exact h1 d hd
+  | cons p ps ih =>
+    intro st h1 h2
+    simp only [List.foldl_cons]
+    exact ih _ (legacyStep_inv st p h1 h2).1 (legacyStep_inv st p h1 h2).2
+
+/-- **The directive splitter never yields an empty directive**, for every tag text in either format (semicolon, or the
+    legacy comma format with its description continuation). -/
+theorem C18_directives_nonempty (tag : Text) : ∀ d ∈ parseDirectives tag, d ≠ [] := by
+  intro d hd
+  unfold parseDirectives at hd
+  by_cases hs : tag.contains 59 = true
+  · simp only [hs, ite_true, List.mem_filter] at hd
+    simpa using hd.2
+  · simp only [hs, Bool.false_eq_true, ite_false, List.mem_reverse] at hd
+    exact legacyFold_inv _ ⟨[], [], false⟩ (by simp) (by simp) d hd
+
+/-- the oddities of the parser that exists (kernel-evaluated; the differential run ties them to the code): the legacy
+    splitter cuts a pattern at a comma, a legacy description swallows `pattern=` (not one of its eleven stop words) and
+    `required`, one `;` switches the whole tag to the semicolon format, `enum` accumulates, numbers that do not parse
+    are dropped, and a blank around `required` hides it from `isRequiredField` although the parser sees the directive -/
+theorem C18_tag_parser_witness :
+    parseDirectives t!"pattern=^(a,b)$,required" = [t!"pattern=^(a", t!"b)$", t!"required"] ∧
+    (tagKeywords .str t!"pattern=^(a,b)$,required").pattern = t!"^(a" ∧
+    (tagKeywords .str t!"pattern=^(?!tmp)[a-z]+$").pattern = t!"^(?!tmp)[a-z]+$" ∧
+    parseDirectives t!"description=d,pattern=x,required,title=t" = [t!"description=d, pattern=x, required", t!"title=t"] ∧
+    parseDirectives t!"description=a;b,pattern=x" = [t!"description=a", t!"b,pattern=x"] ∧
+    (tagKeywords .str t!"enum=a,enum=b,c").enums = [t!"a", t!"b"] ∧
+    (tagKeywords .float t!"minimum=abc;maximum= 007.50 ;minLength=-1;maxLength=18446744073709551616") =
+      { maximum := some (750, 2) } ∧
+    parseDirectives t!" required ;title=x" = [t!"required", t!"title=x"] ∧
+    isRequired ⟨t!"F", t!"f", t!" required ;title=x", false⟩ false = false := by decide
+
+private theorem keywordTable_floatArg : ∀ p ∈ keywordTable, ∀ v : Text,
+    (p.2 v).floatArg = none ∨ (p.2 v).floatArg = some v := by
+  intro p hp v
+  simp only [keywordTable, List.mem_cons, List.not_mem_nil, or_false] at hp
+  rcases hp with h | h | h | h | h | h | h | h | h | h | h | h | h <;> (subst h; simp [Directive.floatArg])
+
+private theorem classify_floatArg' (d : Text) :
+    (classify d).floatArg = none ∨ (classify d).floatArg = some (directiveValue d) := by
+  unfold classify
+  by_cases h1 : (trimSpace d == t!"required") = true
+  · rw [if_pos h1]; exact Or.inl rfl
+  · rw [if_neg h1]
+    by_cases h2 : (trimSpace d).contains 61 = true
+    · rw [if_pos h2]
+      cases hf : keywordTable.find? (fun p => p.1 == directiveKey d) with
+      | none => exact Or.inl rfl
+      | some p => exact keywordTable_floatArg p (List.mem_of_find?_eq_some hf) _
+    · rw [if_neg h2]
+      by_cases h3 : (trimSpace d == t!"uniqueItems") = true
+      · rw [if_pos h3]; exact Or.inl rfl
+      · rw [if_neg h3]; exact Or.inl rfl
+
+private theorem classify_floatArg (d v : Text) (h : (classify d).floatArg = some v) : v = directiveValue d := by
+  rcases classify_floatArg' d with h' | h'
+  · rw [h'] at h; cases h
+  · rw [h'] at h; exact (Option.some.inj h).symm
+
+/-- a directive whose value is no spelling of NaN / ±Inf leaves the schema serialisable if it was -/
+private theorem applyDirective_finite (k : TagKind) (kw : TagKw) (d : Text)
+    (h : parseFloatLit (directiveValue d) ≠ .nonfinite) : (applyDirective k kw d).nonfinite = kw.nonfinite := by
+  unfold applyDirective
+  have hv : ∀ v, (classify d).floatArg = some v → parseFloatLit v ≠ .nonfinite := by
+    intro v hv; rw [classify_floatArg d v hv]; exact h
+  generalize classify d = dir at hv
+  cases dir <;> simp only [applyClassified, Directive.floatArg] at hv ⊢
+  case minimum v =>
+    have := hv v rfl
+    split <;> first | rfl | (rename_i heq; exact absurd heq this)
+  case maximum v =>
+    have := hv v rfl
+    split <;> first | rfl | (rename_i heq; exact absurd heq this)
+  case dflt v =>
+    have := hv v rfl
+    unfold defaultOf
+    split
+    · rfl
+    · split <;> first | rfl | (rename_i heq; exact absurd heq this)
+    · rfl
+    · rfl
+  all_goals first | rfl | (split <;> rfl)
+
+/-- **Serialisable, partial**: if no directive of the tag carries a value that `strconv.ParseFloat` reads as NaN or
+    ±Inf, the keywords the parser sets are all printable by encoding/json (no non-finite bound or default). The full
+    statement ("generation yields a JSON Schema document" for every tag) is false: `C18_tag_nonfinite_witness`. -/
+theorem C18_tags_serialisable_partial (k : TagKind) (js : Text)
+    (h : ∀ d ∈ parseDirectives js, parseFloatLit (directiveValue d) ≠ .nonfinite) :
+    (tagKeywords k js).nonfinite = false := by
+  unfold tagKeywords
+  by_cases he : js = []
+  · simp [he]
+  · simp only [beq_iff_eq, he, ite_false]
+    have : ∀ (ds : List Text) (kw : TagKw), (∀ d ∈ ds, parseFloatLit (directiveValue d) ≠ .nonfinite) →
+        (ds.foldl (applyDirective k) kw).nonfinite = kw.nonfinite := by
+      intro ds
+      induction ds with
+      | nil => intro kw _; rfl
+      | cons d ds ih =>
+        intro kw hd
+        simp only [List.foldl_cons]
+        rw [ih _ (fun x hx => hd x (List.mem_cons_of_mem _ hx)), applyDirective_finite k kw d (hd d (List.mem_cons_self ..))]
+    exact this _ _ h
+
+/-- `minimum=NaN`, `maximum=Inf`, `default=-inf` on a number: the parser sets a bound encoding/json refuses to print —
+    the generated schema is no JSON document (and tools/list fails for every tool of the server). `+nan` and `infin`
+    do not parse and are harmless; on an integer `default=inf` stays a string. -/
+theorem C18_tag_nonfinite_witness :
+    (tagKeywords .float t!"minimum=NaN").nonfinite = true ∧
+    (tagKeywords .int t!"required,maximum=Inf").nonfinite = true ∧
+    (tagKeywords .float t!"default=-inf").nonfinite = true ∧
+    (tagKeywords .float t!"minimum=+nan;maximum=infin").nonfinite = false ∧
+    (tagKeywords .int t!"default=inf") = { dflt := some (.str t!"inf") } := by decide
+
 /-! ## non-vacuity -/
 
 /-- the fragment contains a type with tags, omitempty, `-`, jsonschema `required`, pointers, slices, arrays, maps and
@@ -820,6 +1018,15 @@ theorem C18_sound_refuted_defs : ¬ SoundFor genDefsDoc := by
 example : frag Ex.tFrag = true ∧ populated [] Ex.vFrag Ex.tFrag = true ∧ hasNamed Ex.tFrag = false := by decide
 
 example : propertyNames (genInline Ex.tFrag) = [t!"name", t!"count", t!"Ratio", t!"opt", t!"tags", t!"grid", t!"index"] := by decide
+
+/-- `C18_field_names_any_jsonschema_tag` on a concrete type: every field tagged with a pattern Go's RE2 rejects -/
+example : frag Ex.tFrag = true ∧
+    (match Ex.tFrag with
+     | .struct fs => propertyNames (genInline (.struct (retag (fun _ => t!"required,pattern=^(?!tmp)[a-z]+$") fs)))
+     | _ => []) = [t!"name", t!"count", t!"Ratio", t!"opt", t!"tags", t!"grid", t!"index"] := by decide
+
+/-- `C18_tags_serialisable_partial` applies to tags with bounds, patterns and unparsable numbers -/
+example : ∀ d ∈ parseDirectives t!"minimum=-0,maximum=abc,pattern=^(?!x)", parseFloatLit (directiveValue d) ≠ .nonfinite := by decide
 
 /-- the validator is not trivially true: dropping the required `name`, or a string for `count`, is rejected -/
 example : validatesDoc (genInlineDoc Ex.tFrag) (.obj [(t!"Ratio", .num 15 1), (t!"tags", .arr []), (t!"grid", .arr []), (t!"index", .obj [])]) = false ∧
